@@ -111,6 +111,29 @@ def call_graph() -> Dict[str, set]:
             for t in targets:
                 if t in callers and t != q:
                     callers[t].add(q)
+    # dispatch tables: a function named (not called) in a module-level assignment is called by every
+    # function that reads the name it was assigned to (`for kind, handler in _TABLE: handler(...)`)
+    tables: Dict[str, set] = {}
+    for n in tree.body:
+        tgts = n.targets if isinstance(n, ast.Assign) else [n.target] if isinstance(n, ast.AnnAssign) else []
+        val = getattr(n, "value", None)
+        if val is None:
+            continue
+        held = set()
+        for x in ast.walk(val):
+            if isinstance(x, ast.Name) and x.id in names:
+                held.add(x.id)
+            elif isinstance(x, ast.Attribute) and isinstance(x.value, ast.Name) and f"{x.value.id}.{x.attr}" in names:
+                held.add(f"{x.value.id}.{x.attr}")
+        for t in tgts:
+            if isinstance(t, ast.Name) and held:
+                tables.setdefault(t.id, set()).update(held)
+    for q, node in defs:
+        for x in ast.walk(node):
+            if isinstance(x, ast.Name) and isinstance(x.ctx, ast.Load) and x.id in tables:
+                for t in tables[x.id]:
+                    if t != q:
+                        callers[t].add(q)
     return callers
 
 
@@ -133,9 +156,14 @@ def mkbase(tag: str, symbolic_positions: Tuple[int, ...]) -> Any:
 
 
 def operand(tag: str, bases: List[Any], pbase: int) -> Any:
+    import measured
+
+    if not bases:
+        # a bare number that still carries a prefix (what 5 km / 2 m is measured in): factors {One: 1}
+        pre = im.shadow_prefix(pbase, SInt(z3.Int(f"{tag}_p"))) if pbase else measured.IdentityPrefix
+        return im.shadow_unit(pre, {measured.One: 1}, measured.Number)
     fs = {b: SInt(z3.Int(f"{tag}_e{i}")) for i, b in enumerate(bases)}
     dim = im.shadow_dimension([SInt(z3.simplify(t)) for t in im.dim_of_factors(fs, N)])
-    import measured
 
     pre = im.shadow_prefix(pbase, SInt(z3.Int(f"{tag}_p"))) if pbase else measured.IdentityPrefix
     return im.shadow_unit(pre, fs, dim)
@@ -145,6 +173,31 @@ REAL_BASE_SETS = [
     ["meter", "foot", "inch"], ["meter", "second", "kilogram"], ["pound-force", "meter", "second"],
     ["acre", "foot", "liter"], ["jansky", "second", "meter"], ["coulomb", "second", "kelvin"],
 ]
+
+
+class Res(tuple):
+    """What a site handed to the constructor, with the operands it started from."""
+    ops: Tuple = ()
+
+
+def same_key(r: Any, u: Any) -> Any:
+    """z3: r has the intern key of u (same prefix, same factors)."""
+    from measured import One
+
+    fr = {f: e for f, e in r.factors.items()}
+    fu = {f: e for f, e in u.factors.items()}
+    if set(map(id, fr)) != set(map(id, fu)) or r.prefix.base != u.prefix.base and not (
+            r.prefix.base in (0,) or u.prefix.base in (0,)):
+        return z3.BoolVal(False)
+    byid = {id(f): e for f, e in fu.items()}
+    conds = [term(e) == term(byid[id(f)]) for f, e in fr.items()]
+    if r.prefix.base == u.prefix.base:
+        conds.append(term(r.prefix.exponent) == term(u.prefix.exponent))
+    else:
+        # the identity prefix against a prefix of a base: the same key only when the exponent is zero
+        other = u.prefix if r.prefix.base == 0 else r.prefix
+        conds.append(term(other.exponent) == 0)
+    return z3.And(*conds)
 
 
 def run_site(site: str, mode: Tuple, nfac: Tuple[int, int], pbase: int,
@@ -165,12 +218,12 @@ def run_site(site: str, mode: Tuple, nfac: Tuple[int, int], pbase: int,
             if any(b is None for b in bases):
                 raise symnum.HarnessError(f"{mode[1]} are not all base units")
         a = operand("a", bases[:nfac[0]], pbase)
-        b = operand("b", bases[3 - nfac[1]:], pbase)
+        b = operand("b", bases[3 - nfac[1]:] if nfac[1] else [], pbase)
         n = SInt(z3.Int("n")) if nval is None else nval
-        if site == "mul":
-            return (Unit._multiply.__wrapped__(a, b),)
-        if site == "div":
-            return (Unit._divide.__wrapped__(a, b),)
+        if site in ("mul", "div"):
+            out = Res(((Unit._multiply if site == "mul" else Unit._divide).__wrapped__(a, b),))
+            out.ops = (a, b)
+            return out
         if site == "pow":
             return (a ** n,)
         if site == "root":
@@ -189,7 +242,9 @@ def run_site(site: str, mode: Tuple, nfac: Tuple[int, int], pbase: int,
             tr = T()
             powered = a ** n                      # what `term` does with a resolved symbol
             seq = T.unit_sequence.base_func(tr, powered, b)
-            return (powered, seq, T.unit.base_func(tr, seq, b), T.unit.base_func(tr, a))
+            out = Res((powered, seq, T.unit.base_func(tr, seq, b), T.unit.base_func(tr, a)))
+            out.ops = (a, b)
+            return out
         if site == "from_json":
             # what the JSON decoder hands over for a unit that satisfies Inv (nested objects are
             # decoded bottom-up); dimensions built on the way are interned for real (AssocTable:
@@ -341,6 +396,15 @@ def worker(task: Tuple) -> Dict[str, Any]:
                 acc.ob("unsat", name, key)
                 results.append((p, r))
                 continue
+            # a result with the key of one of the operands (or of an earlier result of this run) IS
+            # that object: it is in the table under its own key, the constructor returns it and
+            # nothing is registered
+            for u in tuple(getattr(p.result, "ops", ())) + tuple(p.result[:k]):
+                goal = z3.Or(goal, same_key(r, u))
+            st, mdl = P.prove(p.cond, goal)
+            if st == "unsat":
+                acc.ob("unsat", name + ":or-the-key-of-an-operand-which-is-returned", key)
+                continue
             if st == "unknown":
                 acc.ob("unknown", name, key)
                 continue
@@ -348,11 +412,25 @@ def worker(task: Tuple) -> Dict[str, Any]:
             # every integer variable of the query (a model may leave don't-cares out)
             ints = sorted({str(v): v for e_ in (p.cond, goal) for v in z3_vars(e_)
                            if v.sort() == z3.IntSort()}.values(), key=str)
+            if pbase:
+                # the prefix exponents are free in the query (Inv does not mention them) but not in the replay
+                have = {str(v) for v in ints}
+                ints += [z3.Int(nm) for nm in ("a_p", "b_p") if nm not in have]
             sm = None
             # prefer exponents of magnitude >= 2: a part that is a bare registered unit is
             # returned from the real table (present path) and does not show the defect
             exps = [v for v in ints if "_e" in str(v)]
-            prefs = [[z3.Or(v >= 2, v <= -2) for v in exps], []]
+            # and prefix exponents that neither vanish nor cancel: a result that carries no prefix has
+            # the key of one of its operands and is likewise returned from the real table
+            pexps = [v for v in ints if str(v).endswith("_p")]
+            big = [z3.Or(v >= 2, v <= -2) for v in exps]
+            pre = [v != 0 for v in pexps] + ([z3.Sum(pexps) != 0, pexps[0] != pexps[-1]] if len(pexps) > 1 else [])
+            if r.prefix.base and symnum.is_sym(r.prefix.exponent):
+                pre.append(term(r.prefix.exponent) != 0)     # the result itself keeps a prefix
+            elif pbase and r.prefix.base == 0:
+                pre.append(z3.BoolVal(False))                 # it has none on this path: a candidate only
+            prefs = [big + pre, big, pre, []]
+            firm = False
             for pref, bound in itertools.product(prefs, (3, 6, 12, 100)):
                 s = z3.Solver()
                 s.set("timeout", 10000)
@@ -361,6 +439,7 @@ def worker(task: Tuple) -> Dict[str, Any]:
                 if str(s.check()) == "sat":
                     mm = s.model()
                     sm = {str(v): mm.eval(v, model_completion=True).as_long() for v in ints}
+                    firm = pref is prefs[0]
                     break
             if sm is None:
                 acc.ob("unknown", name + "(no small model)", key)
@@ -370,8 +449,13 @@ def worker(task: Tuple) -> Dict[str, Any]:
             acc.ob("sat", name, key)
             body = replay_real(site, list(mode[1]), nfac, pbase, sm) if mode[0] == "real" else \
                 replay_sym(site, tuple(mode[1]), nfac, pbase, sm)
-            acc.out["viol"].append((f"C01:{site}", f"{site}: the unit handed to the constructor "
-                                    f"violates dimension == product of factor dimensions at {sm}", body))
+            # a path that forces a part or the result onto a key the real table already holds (a bare
+            # registered unit, a vanishing prefix) shows nothing on the real library, where the
+            # constructor returns the registered object: such witnesses are candidates only
+            acc.out["viol"].append((f"C01:{site}" + ("" if firm else ":on-a-key-possibly-registered"),
+                                    f"{site}: the unit handed to the constructor "
+                                    f"violates dimension == product of factor dimensions at {sm}", body) +
+                                   (() if firm else ("soft",)))
     # family B: equal keys => equal dimensions, across two independent invocations of this site
     done = 0
     for (p1, r1), (p2, r2) in itertools.combinations(results[:8], 2):
@@ -589,6 +673,10 @@ def tasks_for(tier: str) -> List[Tuple]:
                 if site in ("pow", "ratio") and nfac == (2, 2) and tier == "quick":
                     continue
                 tasks.append((site, ("real", tuple(names)), nfac, 10))
+        # a dimensionless operand that still carries a prefix, on either side
+        for site in ("mul", "div", "parser"):
+            tasks.append((site, ("real", tuple(names)), (0, 2), 10))
+            tasks.append((site, ("real", tuple(names)), (2, 0), 10))
         # roots: symbolic degree for <= 2 factors; with 3 factors the degree is enumerated
         # (symbolic degree x 3 symbolic exponents under floor division takes z3 minutes)
         for nfac in (((1, 1),) if tier == "quick" else ((1, 1), (2, 2))):
